@@ -1,0 +1,213 @@
+//go:build verif
+
+package immutable
+
+import (
+	"fmt"
+)
+
+// Hooks for the verification harness (/verif, property C07): the metadata codecs of a TSSP
+// file — chunk meta in its two layouts (plain `ChunkMeta.marshal/unmarshal`, and the
+// self-compressing codec of chunk_meta_codec.go whose column names live in the trailer's
+// ChunkMetaHeader), meta index items and the file trailer — on plain data, so that the harness
+// can compare exact bytes and decoded fields with the model.
+
+// VerifC07ColMeta mirrors ColumnMeta.
+type VerifC07ColMeta struct {
+	Name    string
+	Ty      byte
+	PreAgg  []byte
+	Offsets []int64
+	Sizes   []uint32
+}
+
+// VerifC07ChunkMeta mirrors ChunkMeta.
+type VerifC07ChunkMeta struct {
+	Sid         uint64
+	Offset      int64
+	Size        uint32
+	ColumnCount uint32
+	SegCount    uint32
+	TimeRange   [][2]int64
+	Cols        []VerifC07ColMeta
+}
+
+func (v *VerifC07ChunkMeta) toChunkMeta() *ChunkMeta {
+	cm := &ChunkMeta{sid: v.Sid, offset: v.Offset, size: v.Size, columnCount: v.ColumnCount, segCount: v.SegCount}
+	for _, tr := range v.TimeRange {
+		cm.timeRange = append(cm.timeRange, SegmentRange{tr[0], tr[1]})
+	}
+	for _, c := range v.Cols {
+		col := ColumnMeta{name: c.Name, ty: c.Ty, preAgg: append([]byte(nil), c.PreAgg...)}
+		for i := range c.Offsets {
+			col.entries = append(col.entries, Segment{offset: c.Offsets[i], size: c.Sizes[i]})
+		}
+		cm.colMeta = append(cm.colMeta, col)
+	}
+	return cm
+}
+
+func verifC07FromChunkMeta(cm *ChunkMeta) *VerifC07ChunkMeta {
+	v := &VerifC07ChunkMeta{Sid: cm.sid, Offset: cm.offset, Size: cm.size, ColumnCount: cm.columnCount, SegCount: cm.segCount}
+	for _, tr := range cm.timeRange {
+		v.TimeRange = append(v.TimeRange, [2]int64{tr[0], tr[1]})
+	}
+	for i := range cm.colMeta {
+		c := &cm.colMeta[i]
+		col := VerifC07ColMeta{Name: string(append([]byte(nil), c.name...)), Ty: c.ty, PreAgg: append([]byte(nil), c.preAgg...)}
+		for _, e := range c.entries {
+			col.Offsets = append(col.Offsets, e.offset)
+			col.Sizes = append(col.Sizes, e.size)
+		}
+		v.Cols = append(v.Cols, col)
+	}
+	return v
+}
+
+func verifC07WithMode(self bool, f func()) {
+	old := chunkMetaCompressMode
+	if self {
+		chunkMetaCompressMode = ChunkMetaCompressSelf
+	} else {
+		chunkMetaCompressMode = ChunkMetaCompressNone
+	}
+	defer func() { chunkMetaCompressMode = old }()
+	f()
+}
+
+// VerifC07MarshalChunkMetas marshals chunk metas one after the other the way the index writer
+// does (MarshalChunkMeta), in the plain layout or the self-compressing one; header is the
+// dictionary of column names the latter collects for the trailer.
+func VerifC07MarshalChunkMetas(vs []*VerifC07ChunkMeta, self bool) (blocks [][]byte, header []string, err error) {
+	verifC07WithMode(self, func() {
+		ctx := GetChunkMetaCodecCtx()
+		defer ctx.Release()
+		for _, v := range vs {
+			var b []byte
+			b, err = MarshalChunkMeta(ctx, v.toChunkMeta(), nil)
+			if err != nil {
+				return
+			}
+			blocks = append(blocks, b)
+		}
+		h := ctx.GetHeader()
+		for i := 0; i < h.Len(); i++ {
+			header = append(header, h.GetValue(i))
+		}
+	})
+	return
+}
+
+// VerifC07UnmarshalChunkMeta decodes one chunk meta with the reader's entry point
+// (UnmarshalChunkMetaAdaptive); columns != nil asks for those columns only.
+func VerifC07UnmarshalChunkMeta(data []byte, header []string, self bool, columns []string) (v *VerifC07ChunkMeta, rest int, err error) {
+	tr := &Trailer{}
+	if self {
+		tr.ChunkMetaCompressFlag = ChunkMetaCompressSelf
+		h := &ChunkMetaHeader{}
+		for _, s := range header {
+			h.AppendValue(s)
+		}
+		tr.ChunkMetaHeader = h
+	}
+	ctx := GetChunkMetaCodecCtx()
+	defer ctx.Release()
+	ctx.SetTrailer(tr)
+	cm := &ChunkMeta{}
+	var r []byte
+	r, err = UnmarshalChunkMetaAdaptive(ctx, cm, columns, append([]byte(nil), data...))
+	if err != nil {
+		return nil, 0, err
+	}
+	return verifC07FromChunkMeta(cm), len(r), nil
+}
+
+// VerifC07MetaIndex mirrors MetaIndex.
+type VerifC07MetaIndex struct {
+	ID      uint64
+	MinTime int64
+	MaxTime int64
+	Offset  int64
+	Count   uint32
+	Size    uint32
+}
+
+func VerifC07MarshalMetaIndex(v VerifC07MetaIndex, detached bool) []byte {
+	m := &MetaIndex{id: v.ID, minTime: v.MinTime, maxTime: v.MaxTime, offset: v.Offset, count: v.Count, size: v.Size}
+	if detached {
+		return m.marshalDetached(nil)
+	}
+	return m.marshal(nil)
+}
+
+func VerifC07UnmarshalMetaIndex(data []byte, detached bool) (v VerifC07MetaIndex, rest int, err error) {
+	m := &MetaIndex{}
+	var r []byte
+	if detached {
+		r, err = m.unmarshalDetached(data)
+	} else {
+		r, err = m.unmarshal(data)
+	}
+	if err != nil {
+		return v, 0, err
+	}
+	return VerifC07MetaIndex{ID: m.id, MinTime: m.minTime, MaxTime: m.maxTime, Offset: m.offset, Count: m.count, Size: m.size}, len(r), nil
+}
+
+// VerifC07Trailer mirrors Trailer (with its TableStat and ExtraData).
+type VerifC07Trailer struct {
+	DataOffset, DataSize, IndexSize, MetaIndexSize, BloomSize, IDTimeSize int64
+	IDCount                                                               int64
+	MinID, MaxID                                                          uint64
+	MinTime, MaxTime                                                      int64
+	MetaIndexItemNum                                                      int64
+	BloomM, BloomK                                                        uint64
+	Name                                                                  []byte
+	TimeStoreFlag, ChunkMetaCompressFlag                                  uint8
+	HasHeader                                                             bool
+	Header                                                                []string
+}
+
+func VerifC07MarshalTrailer(v *VerifC07Trailer) []byte {
+	t := &Trailer{dataOffset: v.DataOffset, dataSize: v.DataSize, indexSize: v.IndexSize, metaIndexSize: v.MetaIndexSize,
+		bloomSize: v.BloomSize, idTimeSize: v.IDTimeSize}
+	t.idCount, t.minId, t.maxId, t.minTime, t.maxTime = v.IDCount, v.MinID, v.MaxID, v.MinTime, v.MaxTime
+	t.metaIndexItemNum, t.bloomM, t.bloomK = v.MetaIndexItemNum, v.BloomM, v.BloomK
+	t.name = append([]byte(nil), v.Name...)
+	t.TimeStoreFlag, t.ChunkMetaCompressFlag = v.TimeStoreFlag, v.ChunkMetaCompressFlag
+	if v.HasHeader {
+		h := &ChunkMetaHeader{}
+		for _, s := range v.Header {
+			h.AppendValue(s)
+		}
+		t.ChunkMetaHeader = h
+	}
+	return t.Marshal(nil)
+}
+
+func VerifC07UnmarshalTrailer(data []byte) (v *VerifC07Trailer, rest int, err error) {
+	t := &Trailer{}
+	r, err := t.Unmarshal(append([]byte(nil), data...))
+	if err != nil {
+		return nil, 0, err
+	}
+	v = &VerifC07Trailer{DataOffset: t.dataOffset, DataSize: t.dataSize, IndexSize: t.indexSize, MetaIndexSize: t.metaIndexSize,
+		BloomSize: t.bloomSize, IDTimeSize: t.idTimeSize, IDCount: t.idCount, MinID: t.minId, MaxID: t.maxId,
+		MinTime: t.minTime, MaxTime: t.maxTime, MetaIndexItemNum: t.metaIndexItemNum, BloomM: t.bloomM, BloomK: t.bloomK,
+		Name: append([]byte(nil), t.name...), TimeStoreFlag: t.TimeStoreFlag, ChunkMetaCompressFlag: t.ChunkMetaCompressFlag}
+	if t.ChunkMetaHeader != nil {
+		v.HasHeader = true
+		for i := 0; i < t.ChunkMetaHeader.Len(); i++ {
+			v.Header = append(v.Header, t.ChunkMetaHeader.GetValue(i))
+		}
+	}
+	return v, len(r), nil
+}
+
+// VerifC07Consts: the length constants the readers test their input against, and the sizes
+// of the fixed-layout pre-aggregation blocks.
+func VerifC07Consts() string {
+	return fmt.Sprintf("chunkMetaMin=%d segment=%d minMaxTime=%d columnMetaMin=%d metaIndex=%d detachedMetaIndex=%d trailer=%d preagg:int=%d float=%d bool=%d string=%d time=%d zero=%d",
+		ChunkMetaMinLen, SegmentLen, MinMaxTimeLen, ColumnMetaLenMin, MetaIndexLen, DetachedMetaIndexLen, trailerSize,
+		NewIntegerPreAgg().size(), NewFloatPreAgg().size(), (&BooleanPreAgg{}).size(), NewStringPreAgg().size(), (&TimePreAgg{}).size(), len(zeroPreAgg))
+}
